@@ -113,7 +113,8 @@ def close(a, b, tol):
     cb = b.to(tn.complex128)
     err = float(tn.linalg.norm((ca - cb).reshape(-1)))
     ref = float(tn.linalg.norm(cb.reshape(-1)))
-    if err > tol * max(ref, 1e-300) and err > 1e-300:
+    # written with negated <= so that NaN / inf anywhere in the result FAILS the comparison
+    if not (err <= tol * max(ref, 1e-300) or err <= 1e-300):
         return "rel err %g > %g" % (err / max(ref, 1e-300), tol)
     return None
 
